@@ -12,7 +12,12 @@ Op lines (space separated):
   timeout <tx>
   send <hex|->
   dg <src> app <hex|->
-  dg <src> <req|ind|rsp|err> <b|o> <txid> <abs|loc|rem|bad|trunc> <uc 0|1> <role n|g|d> <prio> <user>
+  dg <src> <req|ind|rsp|err> <b|o> <txid> <layout> <uc 0|1> <role n|g|d> <prio> <user>
+     <layout> = "-" (no integrity-relevant attribute) or tokens joined by "+", in wire order:
+        loc rem bad trunc   a MESSAGE-INTEGRITY attribute (valid under the local / remote password, wrong key, length != 20)
+        fp fpbad            a FINGERPRINT attribute with a right / wrong CRC
+        u                   some other attribute (unknown comprehension-optional)
+        sw                  an attribute whose length field runs past the end of the datagram (it swallows whatever follows)
 Observation: a=… w=… r=… c=… p=… s=… k=… C=… d=… t=…
 -/
 
@@ -28,9 +33,16 @@ def parseCls : String → Option Cls
   | "req" => some .request | "ind" => some .indication | "rsp" => some .response | "err" => some .error | _ => none
 def parseMethod : String → Option Method
   | "b" => some .binding | "o" => some .other | _ => none
-def parseMi : String → Option Mi
-  | "abs" => some .absent | "loc" => some .validLocal | "rem" => some .validRemote | "bad" => some .wrongKey
-  | "trunc" => some .truncated | _ => none
+def parseAttr : String → Option Attr
+  | "loc" => some (.mi .validLocal) | "rem" => some (.mi .validRemote) | "bad" => some (.mi .wrongKey)
+  | "trunc" => some (.mi .truncated) | "fp" => some (.fingerprint true) | "fpbad" => some (.fingerprint false)
+  | "u" => some .other | "sw" => some .overrun | _ => none
+
+/-- the attribute list in wire order -/
+def parseLayout (s : String) : Option (List Attr) :=
+  if s = "-" then some [] else
+  (s.splitOn "+").mapM parseAttr
+
 def parseRole : String → Option RoleAttr
   | "n" => some .none | "g" => some .controlling | "d" => some .controlled | _ => none
 def parseBool : String → Option Bool
@@ -43,7 +55,7 @@ def joinOr (l : List String) : String := if l.isEmpty then "-" else ",".intercal
 
 def obs (s : St) (outs : List Out) : String :=
   let acc := if outs.any (· == .accepted) then "1" else "0"
-  let w := joinOr (outs.filterMap fun | .warnBadMi => some "mi" | .warnNoMi => some "nomi" | .roleConflict => some "rc" | _ => none)
+  let w := joinOr (outs.filterMap fun | .warnBadMi => some "mi" | .warnNoMi => some "nomi" | .warnBadFp => some "fp" | .warnTruncAttr => some "ta" | .roleConflict => some "rc" | _ => none)
   let r := joinOr (outs.filterMap fun | .bindingResponse to t => some s!"{to}:{t}" | _ => none)
   let c := joinOr (outs.filterMap fun | .checkSent to t uc => some s!"{to}:{t}:{if uc then 1 else 0}" | _ => none)
   let p := joinOr (outs.filterMap fun | .pairState a st => some s!"{a}:{stateName st}" | _ => none)
@@ -83,9 +95,9 @@ def stepLine (s : St) (line : String) : St × String :=
     | some src, some b => doStep s (.dgram { src := src, kind := .nonStun b })
     | _, _ => (s, "bad-op")
   | ["dg", src, cls, meth, tx, mi, uc, role, prio, user] =>
-    match src.toNat?, parseCls cls, parseMethod meth, tx.toNat?, parseMi mi, parseBool uc, parseRole role, prio.toNat?, user.toNat? with
+    match src.toNat?, parseCls cls, parseMethod meth, tx.toNat?, parseLayout mi, parseBool uc, parseRole role, prio.toNat?, user.toNat? with
     | some src, some cls, some meth, some tx, some mi, some uc, some role, some prio, some user =>
-      let m : Stun := { cls := cls, method := meth, txid := tx, mi := mi, useCandidate := uc, roleAttr := role,
+      let m : Stun := { cls := cls, method := meth, txid := tx, attrs := mi, useCandidate := uc, roleAttr := role,
                         priority := prio, username := user }
       doStep s (.dgram { src := src, kind := .stun m })
     | _, _, _, _, _, _, _, _, _ => (s, "bad-op")
